@@ -30,8 +30,9 @@ RULE = (
 ASSUMPTIONS = [
     "raw reaps nest arguments in name-sorted order (sow_combos sorts them by "
     "design); the direct reference sweep is given that order",
-    "shuffle values are False/True/int as the property states (None is not "
-    "generated)",
+    "shuffle values are False/True/int as the property states; at sow_combos "
+    "also the explicit None, which the method reads as 'keep what the crop "
+    "was constructed with'",
 ]
 
 
@@ -112,7 +113,10 @@ def run_history(case, fresh=False, workers=None):
             sown.append(crop)
             if case["input"] == "grid":
                 combos = {a: list(v) for a, v in case["args"]}
-                if case.get("sow_shuffle") is not None:
+                if case.get("sow_shuffle") == "keep":
+                    # "whatever the crop was constructed with"
+                    skw = dict(skw, shuffle=None)
+                elif case.get("sow_shuffle") is not None:
                     skw = dict(skw, shuffle=case["sow_shuffle"])
                 crop.sow_combos(combos, constants=consts or None,
                                 verbosity=0, **skw)
@@ -384,7 +388,8 @@ def history(draw, max_settings=40):
     sh = st.sampled_from([None, None, False, True, 3, 12345])
     case["ctor_shuffle"] = draw(sh)
     if inp == "grid":
-        case["sow_shuffle"] = draw(sh)
+        case["sow_shuffle"] = draw(st.sampled_from(
+            [None, None, False, True, 3, 12345, "keep"]))
     steps = draw(st.lists(st.fixed_dictionaries({
         "how": st.sampled_from(["crop.grow", "perm", "xyzpy.grow",
                                 "grow-in-dir", "grow_missing", "crop.grow"]),
